@@ -5,6 +5,7 @@ import (
 	"fmt"
 	"net/url"
 	"strconv"
+	"strings"
 
 	"context"
 
@@ -252,12 +253,27 @@ func (sel *Selection) Constrain(params string) (*Selection, error) {
 	if err != nil {
 		return nil, err
 	}
+	query, err := parseQuery(dummy.RawQuery)
+	if err != nil {
+		return nil, err
+	}
 	copy := *sel
-	if err = BuildConstraints(&copy, dummy.Query()); err != nil {
+	if err = BuildConstraints(&copy, query); err != nil {
 		return nil, err
 	}
 	copy.Context = copy.Constraints.ContextConstraint(sel)
 	return &copy, nil
+}
+
+// parseQuery decodes request parameters. Parameters are separated by '&' only: a ';' is part of a value (it separates
+// the alternatives of fields, fc.xfields and fc.range) whether it is written as it is or percent-encoded, and a
+// parameter that cannot be decoded is an error, not a parameter to leave out.
+func parseQuery(raw string) (url.Values, error) {
+	params, err := url.ParseQuery(strings.ReplaceAll(raw, ";", "%3B"))
+	if err != nil {
+		return nil, fmt.Errorf("%w. %s", fc.BadRequestError, err)
+	}
+	return params, nil
 }
 
 var errMaxDepthZeroNotAllowed = errors.New("depth zero is not allowed")
